@@ -101,6 +101,20 @@ def serveWS (bc : Bytes → Bytes → Bool) (cfg : Cfg) (env : Env)
     (basic : Option (Bytes × Bytes)) (inp : Bytes) : Result :=
   if wsGate bc cfg basic then handle (agentEnv bc cfg env) inp else ⟨[], .none, none⟩
 
+/-- A WebSocket listener started directly (`Server.StartWebSocket` / `NewWebSocketListener`) with an
+    ARBITRARY HTTP-level credential store — none, the agent's, somebody else's: `store = none` means
+    `WebSocketConfig.Credentials == nil` (no gate). The handler behind it is the same. -/
+def httpGate (store : Option (Bytes → Bytes → Bool)) (basic : Option (Bytes × Bytes)) : Bool :=
+  match store with
+  | none => true
+  | some v => match basic with
+    | none => false
+    | some (u, p) => v u p
+
+def serveWSWith (bc : Bytes → Bytes → Bool) (cfg : Cfg) (env : Env)
+    (store : Option (Bytes → Bytes → Bool)) (basic : Option (Bytes × Bytes)) (inp : Bytes) : Option Result :=
+  if httpGate store basic then some (handle (agentEnv bc cfg env) inp) else none      -- `none` = HTTP 401
+
 /-- What it means for password `pw` to match configured user `u` (the hash wins when present;
     an entry with neither hash nor password matches nothing). -/
 def userValid (bc : Bytes → Bytes → Bool) (u : User) (pw : Bytes) : Prop :=
